@@ -11,6 +11,7 @@ pub mod c11;
 pub mod c12;
 pub mod c13;
 pub mod c14;
+pub mod c16;
 
 pub fn c03_targeted_small() -> Vec<String> {
     c03::targeted().into_iter().filter(|s| s.len() < 200).collect()
@@ -30,6 +31,7 @@ macro_rules! dispatch {
             "C12" => c12::$f($ctx $(, $arg)?),
             "C13" => c13::$f($ctx $(, $arg)?),
             "C14" => c14::$f($ctx $(, $arg)?),
+            "C16" => c16::$f($ctx $(, $arg)?),
             other => {
                 eprintln!("unknown monitor {other}");
                 std::process::exit(64)
